@@ -537,6 +537,9 @@ def _to_c_expr(
             )
 
         if isinstance(n, ast.BinOp) and type(n.op) in _BIN:
+            if isinstance(n.op, ast.Div):
+                # Python's ``/`` is true division even for two ints
+                return f"(static_cast<float>({emit(n.left)}) / {emit(n.right)})"
             return f"({emit(n.left)} {_BIN[type(n.op)]} {emit(n.right)})"
 
         if isinstance(n, ast.UnaryOp) and type(n.op) in _UN:
@@ -1157,7 +1160,7 @@ def _infer_expr_type(
                 var_types[node.right.id] = "String"
                 right = "String"
             return "String"
-        if "float" in (left, right):
+        if "float" in (left, right) or isinstance(node.op, ast.Div):
             return "float"
         return "int"
 
